@@ -184,6 +184,9 @@ def truth(I, v: Any, st) -> Optional[bool]:
         if h.kind == "dict":
             return len(h.fields) > 0
         return True
+    if isinstance(v, Opaque) and v.cls.startswith("ext:") and v.cls.endswith("()"):
+        st.note(f"truthiness of library call result {v.cls}")
+        return None
     if isinstance(v, (Opaque, FuncV, ClassV, BoundV, LambdaV, Term)):
         return True
     if isinstance(v, IntSet):
@@ -788,6 +791,16 @@ def call_builtin(I, fv: BoundV, args: list, kwargs: dict, st, node=None) -> list
         st.note(f"builtin {name} not modelled")
         return [(Unknown(name), st)]
     # ---- methods
+    if isinstance(recv, BoundV) and recv.recv is None:
+        fn = globals().get(f"b_{recv.name}_{name}")
+        if fn is not None:
+            return fn(I, args, kwargs, st, node)
+    if isinstance(recv, Opaque) and f"{recv.cls}.{name}" in EXT_CALLS:
+        return EXT_CALLS[f"{recv.cls}.{name}"](I, args, kwargs, st, node)
+    if isinstance(recv, str) and name == "translate" and args:
+        table = _as_dict(args[0], st)
+        if table is not None and all(isinstance(k, int) and (v is None or isinstance(v, (str, int))) for k, v in table.items()):
+            return [(recv.translate(table), st)]
     if isinstance(recv, Ref):
         h = st.obj(recv)
         if h.kind in ("list", "set"):
@@ -1017,12 +1030,33 @@ def str_method_abstract(I, recv, name, args, st) -> list:
             else:
                 out.append(p)
         return [("".join(out) if all(isinstance(x, str) for x in out) else SeqStr(tuple(out)), st)]
+    if name in ("ljust", "rjust", "zfill") and args and isinstance(args[0], int) and (name == "zfill" or len(args) == 1 or (isinstance(args[1], str) and len(args[1]) == 1)):
+        fill = "0" if name == "zfill" else (args[1] if len(args) > 1 else " ")
+        pad = (fill,) * max(0, args[0] - len(parts))
+        new = (tuple(parts) + pad) if name == "ljust" else (pad + tuple(parts))
+        return [("".join(new) if all(isinstance(x, str) for x in new) else SeqStr(tuple(new)), st)]
+    if name == "translate" and args:
+        table = _as_dict(args[0], st) if isinstance(args[0], Ref) else (dict(args[0]) if isinstance(args[0], FrozenDict) else None)
+        if table is not None and all(isinstance(k, int) for k in table):
+            out2: list = []
+            for p in parts:
+                cs = _chars_of(p)
+                hit = [c for c in cs if ord(c) in table]
+                if not hit:
+                    out2.append(p)
+                elif len(cs) == 1:
+                    r = table[ord(next(iter(cs)))]
+                    out2.extend(r if isinstance(r, str) else ([] if r is None else [chr(r)]))
+                else:
+                    st.note("translate on uncertain character")
+                    return [(Unknown("translate"), st)]
+            return [("".join(out2) if all(isinstance(x, str) for x in out2) else SeqStr(tuple(out2)), st)]
     st.note(f"str.{name} on abstract string not modelled")
     return [(Unknown(f"str.{name}"), st)]
 
 
 def text_method(I, t: Text, name: str, args: list, kwargs: dict, st) -> list:
-    if name in ("strip", "lstrip", "rstrip", "lower", "upper", "title", "replace", "format", "removeprefix", "removesuffix", "rstrip"):
+    if name in ("strip", "lstrip", "rstrip", "lower", "upper", "title", "replace", "format", "removeprefix", "removesuffix", "rstrip", "translate", "casefold", "ljust", "rjust"):
         nt = new_text(t.labels | text_labels(list(args)), t.kind)
         st.meta.setdefault("derived", {})[nt.tid] = (t.tid, name, tuple(a if is_concrete(a) else repr(a) for a in args))
         return [(nt, st)]
@@ -1369,3 +1403,48 @@ def b_filter(I, args, kwargs, st, node):
 
 
 b_map = b_filter
+
+
+def b_str_maketrans(I, args, kwargs, st, node):
+    if len(args) == 1:
+        d = _as_dict(args[0], st)
+        if d is not None and all(isinstance(k, (str, int)) for k in d):
+            return [(st.alloc(HObj("dict", fields={(ord(k) if isinstance(k, str) else k): v for k, v in d.items()})), st)]
+    if len(args) >= 2 and all(isinstance(a, str) for a in args):
+        return [(st.alloc(HObj("dict", fields=dict(str.maketrans(*args)))), st)]
+    st.note("str.maketrans with abstract arguments")
+    return [(Unknown("maketrans"), st)]
+
+
+def b_dict_fromkeys(I, args, kwargs, st, node):
+    items = iter_values(I, args[0], st) if args else None
+    if items is None or not all(hashable(k) for k in items):
+        st.note("dict.fromkeys over abstract iterable")
+        return [(Unknown("fromkeys"), st)]
+    return [(st.alloc(HObj("dict", fields={k: (args[1] if len(args) > 1 else None) for k in items})), st)]
+
+
+def _ext_chain(I, args, kwargs, st, node):
+    out: list = []
+    for a in args:
+        items = iter_values(I, a, st)
+        if items is None:
+            st.note("itertools.chain over abstract iterable")
+            out.append(Unknown("chain"))
+        else:
+            out.extend(items)
+    return [(st.alloc(HObj("list", items=out)), st)]
+
+
+def _ext_chain_from_iterable(I, args, kwargs, st, node):
+    outer = iter_values(I, args[0], st) if args else None
+    if outer is None:
+        st.note("itertools.chain.from_iterable over abstract iterable")
+        return [(Unknown("chain"), st)]
+    return _ext_chain(I, list(outer), kwargs, st, node)
+
+
+EXT_CALLS = {
+    "ext:itertools.chain": _ext_chain,
+    "ext:itertools.chain.from_iterable": _ext_chain_from_iterable,
+}
